@@ -299,4 +299,20 @@ mod tests {
         assert_eq!(cursor.next_token().unwrap().kind, AstKind::GlyphName);
         assert_eq!(cursor.next_token().unwrap().kind, AstKind::RSquare);
     }
+
+    // 'a--b' is not a range from 'a' to 'b'; we used to treat it as one,
+    // dropping the second hyphen from the tree.
+    #[test]
+    fn range_with_repeated_hyphen() {
+        let fea = "[a--b]";
+        let glyphs = GlyphMap::new(["a", "b"]).unwrap();
+        let mut sink = AstSink::new(fea, FileId::CURRENT_FILE, Some(&glyphs));
+        let mut parser = Parser::new(fea, &mut sink);
+        eat_glyph_class_list(&mut parser, TokenSet::EMPTY);
+
+        let (node, errs, _) = sink.finish();
+        assert_eq!(errs.len(), 1);
+        let text = node.iter_tokens().map(|t| t.as_str()).collect::<String>();
+        assert_eq!(text, fea);
+    }
 }
